@@ -326,7 +326,7 @@ func zzMPEvent(h *zzMP, t int) {
 
 		// C01 / C02
 		zzAssert(!sink.viol, "sink protocol respected")
-		zzAssert(!sink.orderViol, "C01: frames written consecutively, in order, none repeated")
+		zzAssert(!sink.orderViol, "C01/C13: frames written consecutively, in order, none repeated (and never a rejected frame)")
 		if startCond {
 			first := n - N + 1
 			if first < 0 {
@@ -433,6 +433,12 @@ func zzMPEvent(h *zzMP, t int) {
 			b.qm, b.cm = a.q, a.c
 		}
 		zzAssert(zzInvExceptCurrent(mp.frameLoop, N, b), "Inv: bad frame / reset does not advance the ring")
+		if ev == 1 {
+			zzAssert(mp.frameLoop.currentIndex == a.c && mp.frameLoop.bufferFull == (a.q >= 1), "C13: a bad frame never enters the pre-trigger buffer (its slot is the one the next frame overwrites)")
+		} else {
+			d := mp.motionDetector
+			zzAssert(d.backgroundFrames == 0 && d.flooredFrames.currentIndex == 0 && d.flooredFrames.oldest == 0 && !d.flooredFrames.bufferFull, "C09/C15: a camera reset always resets the detector's history and background seeding")
+		}
 		zzAssert(!mp.isRecording && mp.framesWritten == 0 && mp.writeUntil == 0, "Inv: idle after bad frame / reset")
 		trig2 := h.trig
 		if h.isRec {
